@@ -65,12 +65,26 @@ OnQry(cn, n, requester, a) == Rsp(n, requester, a, cn[a])
 
 \* a record arrives at node n through the replication path (a fetched copy, or a copy handed in by the
 \* environment): merged with what is held; a chunk / scratchpad / register is written only when that CHANGES
-\* what is held, a transaction set is written every time; only a write tells the fetcher (which may then
-\* start further fetches)
-OnStore(cn, fn, n, a, theirs) ==
+\* what is held, a transaction set is written every time.  A write tells the fetcher through the PutLocalRecord
+\* handler (notify_about_new_put: every fetch of the key is over, further fetches may start); a copy that changes
+\* nothing is reported as an early completion of the fetch of THAT version (replication.rs, after fix "the fetch
+\* of a record version is over when the holder's copy arrived" -- before it the entry stayed in flight until its
+\* deadline and the holder that had answered was reported as failed)
+\* (fetched = the copy is the answer to a fetch; FALSE = handed in by the environment)
+OnStore(cn, fn, n, a, theirs, fetched) ==
     LET new == IF theirs.kind = "none" THEN cn[a] ELSE Merge(cn[a], theirs) IN
-    IF new = cn[a] /\ theirs.kind # "txs" THEN {NodeRes(cn, fn, {})}
+    IF theirs.kind = "none" THEN {NodeRes(cn, fn, {})}
+    ELSE IF new = cn[a] /\ theirs.kind # "txs"
+         THEN IF fetched THEN {NodeRes(cn, r.st, Queries(n, r.issued)) : r \in F!NotifyEarly(fn, a, TId(theirs))}
+                         ELSE {NodeRes(cn, fn, {})}
     ELSE {NodeRes([cn EXCEPT ![a] = new], r.st, Queries(n, r.issued)) : r \in F!NotifyPut(fn, a, TId(new))}
+
+\* a direct fetch failed (request or answer lost, or the holder answered "not found"): the requester reads the record
+\* from the network at large (replication.rs: get_record_from_network with quorum one).  When that read is served it
+\* returns the copy of some node that holds the record -- in this model the lowest-numbered other holder -- and the copy
+\* is stored like a fetched one; when nobody answers nothing happens (the fetch stays in flight until its deadline)
+NetCopy(content, n, a) == LET H == {j \in Node \ {n} : content[j][a].kind # "none"} IN
+                          IF H = {} THEN NoneC ELSE content[CHOOSE j \in H : \A i \in H : j <= i][a]
 
 \* the deadline of an in-flight fetch passes
 OnExpire(fn, e) == {r.st : r \in F!ExpireFetch(fn, e)}
